@@ -263,7 +263,8 @@ def gen_font(r, npasses=None, dirn=None, maxloop=None, posallow=None, allow=None
             ",".join(map(str, colarr)), "0",
             ";".join(",".join(map(str, row)) for row in sp["trans"]) or "-",
             ";".join((",".join(map(str, l)) or "-") for l in sp["rm"]) or "-",
-            ";".join("%d,%d,%s,%s" % (ru[0], ru[1], ru[2].hex() or "-", ru[3].hex() or "-") for ru in sp["rules"])]))
+            ";".join("%d,%d,%s,%s" % (ru[0], ru[1], ru[2].hex() or "-", ru[3].hex() or "-") for ru in sp["rules"]),
+            ";".join(".".join(map(str, ru[4])) for ru in sp["rules"])]))
     model = "ipos=%d classes=%s gattr=%s passes=%s" % (ipos, ";".join(".".join(map(str, c)) for c in CLASSES),
                                                       ";".join(".".join(map(str, g)) for g in gattr), "|".join(pm))
     desc = {"passes": np_, "ipos": ipos, "ncols": ncols, "dir": d, "model": model,
